@@ -24,9 +24,12 @@ const (
 	kfDateYearPad = "C28-date-year-pad"
 	// YEAR 0000: printed as "0".
 	kfYearZero = "C28-year-zero"
-	// TIME / TIMESTAMP(n) with fractional seconds over the binary protocol: the field
-	// packet announces decimals = 0 (schemaToFields sets Decimals for DATETIME only).
-	kfTimeBinaryFrac = "C28-binary-fraction-decimals"
+	// TIMESTAMP(n) with fractional seconds over the binary protocol: the field packet
+	// announces decimals = 0 (schemaToFields sets Decimals for DATETIME only).
+	kfTimestampBinaryFrac = "C28-binary-timestamp-decimals"
+	// TIME with fractional seconds over the binary protocol: same mechanism; TimespanType
+	// has no precision to announce.
+	kfTimeBinaryFrac = "C28-binary-time-decimals"
 	// JSON doubles in [2^63, 2^64): printed in integer syntax with the shortest digits padded
 	// by zeros ("9223372036854776000" for 2^63), which reads back as a different integer.
 	kfJSONBigDouble = "C28-json-double-2p63"
@@ -57,13 +60,20 @@ func roundTripFinding(c colType, v any, text []byte) string {
 // wireFinding recognises what known findings make a client receive over one protocol.
 // fullText is the text form the API produces for the stored value.
 func wireFinding(c colType, proto string, fullText, received []byte) string {
-	if (c.kind == "timespan" || strings.HasPrefix(c.ddl, "TIMESTAMP")) && strings.HasPrefix(proto, "binary") {
+	id := ""
+	switch {
+	case c.kind == "timespan":
+		id = kfTimeBinaryFrac
+	case strings.HasPrefix(c.ddl, "TIMESTAMP"):
+		id = kfTimestampBinaryFrac
+	}
+	if id != "" && strings.HasPrefix(proto, "binary") {
 		// the field packet announces decimals = 0 for TIME and TIMESTAMP(n) columns, so a
 		// client that formats the binary value by the announced decimals (go-sql-driver
 		// does) drops the fractional seconds
 		if i := strings.IndexByte(string(fullText), '.'); i >= 0 && string(received) == string(fullText[:i]) &&
 			strings.Trim(string(fullText[i+1:]), "0") != "" {
-			return kfTimeBinaryFrac
+			return id
 		}
 	}
 	return ""
@@ -87,8 +97,6 @@ func jsonBigDouble(text []byte) bool {
 	}
 	return false
 }
-
-func lengthKnown(c colType, v any, text []byte) bool { return lengthFinding(c, text) != "" }
 
 func lengthFinding(c colType, text []byte) string {
 	if dt, ok := c.typ.(sql.DecimalType); ok && dt.Precision() == dt.Scale() && len(text) > 0 && text[0] == '-' &&
